@@ -338,7 +338,7 @@ func TestC13Commands(t *testing.T) {
 				n = len(c.Files[i-1].Results)
 			}
 			for j := 0; j < n; j++ {
-				r := vgen.Result(t, fmt.Sprintf("r%d.%d", i, j), vgen.ResultOpts{Consistent: true})
+				r := vgen.Result(t, fmt.Sprintf("r%d.%d", i, j), vgen.ResultOpts{Consistent: true, AllowLargeBody: j == 0 && rapid.IntRange(0, 3).Draw(t, fmt.Sprintf("big%d", i)) == 0})
 				r.Attack = fmt.Sprintf("f%d/%d", i, j)
 				// keep report arithmetic inside the integer domain (C10's domain)
 				if r.Latency < 0 {
@@ -373,6 +373,9 @@ func TestC13Commands(t *testing.T) {
 		}
 		nt := len(c.Files) >= 3 && len(codecs) >= 2 && len(lens) >= 2
 		sig, _ := json.Marshal(c)
+		if len(sig) > 6000 {
+			sig = []byte(fmt.Sprintf("%x", vh.Hash(string(sig))))
+		}
 		vh.Case("C13.commands", string(sig), nt, "type:"+strings.SplitN(c.Type, "[", 2)[0])
 		if len(sig) < 1500 {
 			vh.Sample("C13.commands", nt, c)
